@@ -258,10 +258,12 @@ def same_modulo_blindspot(*specs):
 
 
 def only_ellipsis_vs_any(a, b):
+    """The two specs differ, but only by marker-vs-accept-everything-schema differences (finding F13):
+    `...` vs schema.any in an element list and/or an absent list type vs a type that accepts everything."""
     from ..decode import normalise, spec_eq
     if spec_eq(normalise(a), normalise(b)):
         return False
-    return spec_eq(normalise(ell_as_any(a)), normalise(ell_as_any(b)))
+    return same_modulo_blindspot(a, b)
 
 
 def distinguishing_witness(ctx, a, b, sa, sb, rng):
